@@ -297,6 +297,13 @@ class Ctx:
                 translator.regenerate_guard()
             except Exception as e:  # the guard region is no longer in a form the translator understands
                 self.broken_obligation(f'translator (thread guard): {type(e).__name__}: {e}')
+        if 'AeicModel.Generated.ConfigProg' in deps:
+            try:
+                from . import cfgprog
+
+                cfgprog.regenerate()
+            except Exception as e:  # the singleton code is no longer in a form the event language expresses
+                self.broken_obligation(f'translator (configuration singleton): {type(e).__name__}: {e}')
         if 'AeicModel.Generated.Kernels' in deps:
             try:
                 from . import pykern
